@@ -3,7 +3,7 @@ CONSTANTS
   MaxLen = 3
   Kinds <- TwoKinds
   Outcomes <- AllSix
-  Tags <- BothTags
+  Tags <- NoTags
   MayToggle = TRUE
   MayAbort = TRUE
   Dev_S17_RowLostNotSerialisable = FALSE
@@ -17,6 +17,4 @@ INVARIANT B3_SilentWhileOff
 INVARIANT B4_CompleteAfterClose
 INVARIANT Contract
 PROPERTY WriterIdleWhenCancelled
-PROPERTY Drains
-PROPERTY Terminates
 CHECK_DEADLOCK FALSE
